@@ -73,6 +73,27 @@ func c07Recipe(recipe string) []byte {
 			body = append(body, ref.HeaderN(ref.L, n, b)...)
 		}
 		return wrapMsg(body)
+	case "leafchain": // a levels of <L[2] leaf <L[2] leaf ...>> with a one-element leaf of format code b at every level
+		w := 1
+		switch b {
+		case 0o32, 0o52:
+			w = 2
+		case 0o34, 0o54, 0o44:
+			w = 4
+		case 0o30, 0o50, 0o40:
+			w = 8
+		}
+		leaf := append([]byte{byte(b)<<2 | 1, byte(w)}, bytes.Repeat([]byte{0x41}, w)...)
+		if b == 0o44 || b == 0o40 {
+			leaf[2] = 0x3F
+		}
+		var body []byte
+		for i := 0; i < a; i++ {
+			body = append(body, 0x01, 0x02)
+			body = append(body, leaf...)
+		}
+		body = append(body, 0x01, 0x00)
+		return wrapMsg(body)
 	case "smallitems": // a list of a one-element items of format code b
 		w := 1
 		switch b {
@@ -148,6 +169,13 @@ func c07Jobs(c *ctx) (small []iso.Job, large []iso.Job) {
 		small = append(small, iso.Job{Input: c07Recipe(fmt.Sprintf("chain %d 0", depth)), Family: "unclosed-chain", Meta: fmt.Sprintf("chain %d 0", depth)})
 	}
 	large = append(large, iso.Job{Input: c07Recipe("chain 1000000 0"), Family: "unclosed-chain", Meta: "chain 1000000 0"})
+	// nests that carry a leaf item at every level (every enclosing list looks at the whole subtree again)
+	for _, code := range []int{0o20, 0o10, 0o11, 0o31, 0o52, 0o54, 0o40} {
+		for _, depth := range []int{500, c.pick(3000, 6000)} {
+			r := fmt.Sprintf("leafchain %d %d", depth, code)
+			small = append(small, iso.Job{Input: c07Recipe(r), Family: "nest-with-leaf-per-level", Meta: r})
+		}
+	}
 	// nested lists that each declare the largest child count the bytes present could still hold
 	for _, nl := range []int{1, 2, 3} {
 		for _, depth := range []int{8, 64, 512, 4096, c.pick(16384, 65536)} {
@@ -248,7 +276,7 @@ func runC07(c *ctx) {
 
 	// distinct / non-trivial accounting (parent side, from the job list)
 	for _, j := range append(append([]iso.Job{}, small...), large...) {
-		nontrivial := len(j.Input) >= 4096 || j.Family == "declared-vs-present" || j.Family == "unclosed-chain" || j.Family == "greedy-nested-lists"
+		nontrivial := len(j.Input) >= 4096 || j.Family == "declared-vs-present" || j.Family == "unclosed-chain" || j.Family == "greedy-nested-lists" || j.Family == "nest-with-leaf-per-level"
 		if !nontrivial {
 			if _, ok := ref.Decode(j.Input); !ok {
 				nontrivial = true
@@ -333,7 +361,7 @@ func runC07(c *ctx) {
 			c.Sample(map[string]interface{}{"family": j.Family, "len": len(j.Input), "input": hex.EncodeToString(clipB(j.Input))})
 		}
 	}
-	c.Required = []string{"family/declared-vs-present", "family/single-point-fault", "family/long-item", "family/many-small-items", "family/generated-tree", "family/closed-chain", "family/greedy-nested-lists", "family/random", "accepted", "rejected"}
+	c.Required = []string{"family/declared-vs-present", "family/single-point-fault", "family/long-item", "family/many-small-items", "family/generated-tree", "family/closed-chain", "family/nest-with-leaf-per-level", "family/greedy-nested-lists", "family/random", "accepted", "rejected"}
 }
 
 func firstLines(s string, n int) string {
